@@ -31,6 +31,8 @@ import (
 	"github.com/reugn/go-quartz/quartz"
 
 	"github.com/tochemey/goakt/v4/internal/address"
+	"github.com/tochemey/goakt/v4/internal/cluster"
+	"github.com/tochemey/goakt/v4/internal/internalpb"
 	"github.com/tochemey/goakt/v4/internal/remoteclient"
 )
 
@@ -101,4 +103,65 @@ func VerifFireScheduled(ctx context.Context, sys ActorSystem, reference string, 
 	}
 	ctx = context.WithValue(ctx, quartz.JobMetadataContextKey, quartz.JobMetadata{RunTime: runTime})
 	return true, scheduled.JobDetail().Job().Execute(ctx)
+}
+
+// VerifEnableRelocation gives a system that joined a cluster through
+// VerifJoinCluster what startCluster gives a real member for relocation: an
+// (in-memory) cluster store for peer state snapshots and the relocator actor.
+func VerifEnableRelocation(ctx context.Context, sys ActorSystem) error {
+	x := sys.(*actorSystem)
+	x.locker.Lock()
+	x.clusterStore = cluster.NewMemoryStore()
+	x.locker.Unlock()
+	return x.spawnRelocator(ctx)
+}
+
+// VerifPeerState builds the peer state snapshot of sys exactly as a graceful
+// shutdown does (preShutdown).
+func VerifPeerState(sys ActorSystem) (*internalpb.PeerState, error) {
+	return sys.(*actorSystem).preShutdown()
+}
+
+// VerifStorePeerState persists a departed node's snapshot in the cluster store
+// of sys (what the departing node's PersistPeerState RPC does on its peers).
+func VerifStorePeerState(ctx context.Context, sys ActorSystem, peerState *internalpb.PeerState) error {
+	return sys.(*actorSystem).clusterStore.PersistPeerState(ctx, peerState)
+}
+
+// VerifHasPeerState reports whether the cluster store of sys holds a snapshot
+// for peerAddress.
+func VerifHasPeerState(ctx context.Context, sys ActorSystem, peerAddress string) bool {
+	_, ok := sys.(*actorSystem).clusterStore.GetPeerState(ctx, peerAddress)
+	return ok
+}
+
+// VerifClusterEvent hands a cluster event to handleClusterEvent on the calling
+// goroutine (the cluster events loop does the same, one event at a time).
+func VerifClusterEvent(sys ActorSystem, event *cluster.Event) {
+	sys.(*actorSystem).handleClusterEvent(event)
+}
+
+// VerifRelocationJobs returns the departed addresses with a relocation in
+// flight (the keys of relocationJobs).
+func VerifRelocationJobs(sys ActorSystem) []string {
+	x := sys.(*actorSystem)
+	x.relocationJobsLocker.Lock()
+	defer x.relocationJobsLocker.Unlock()
+	out := make([]string, 0, len(x.relocationJobs))
+	for k := range x.relocationJobs {
+		out = append(out, k)
+	}
+	return out
+}
+
+// VerifLocalActorNames returns the names of the user actors running on sys.
+func VerifLocalActorNames(sys ActorSystem) []string {
+	pids := sys.(*actorSystem).localActors()
+	out := make([]string, 0, len(pids))
+	for _, pid := range pids {
+		if pid.IsRunning() {
+			out = append(out, pid.Name())
+		}
+	}
+	return out
 }
